@@ -312,3 +312,218 @@ class SSI_poles(Contract):
         f = r[2].snapshot_fn()
         return (r[0], r[1], Arr(r[2].axes, lambda idx: sym.toC(sym.real_(f(idx))), "complex"), r[3], None, None, None)
     canaries = {"shapes stored without their imaginary part": spec_canary(_real_shapes)}
+
+
+# ----------------------------------------------------------------------------------------------------------------------
+# plscf.rmfd2ac: block companion form of a right matrix fraction with coefficient blocks A_0..A_n, B_0..B_n
+# (N = n + 1 blocks): first block row -A_n^-1 A_{n-1}, ..., -A_n^-1 A_0, 0 ; identity below, shifted by one block;
+# C = [B_{n-1} - B_n A_n^-1 A_{n-1}, ..., B_0 - B_n A_n^-1 A_0, 0]
+# ----------------------------------------------------------------------------------------------------------------------
+
+def companion(c, A_den, B_num, upto=None):
+    N_, m = A_den.shape[0], A_den.shape[1]
+    l_ = B_num.shape[1]
+    af, bf = A_den.snapshot_fn(), B_num.snapshot_fn()
+    last = sym.sub(N_, 1)
+    Ad_last = Arr((A_den.axes[1], A_den.axes[2]), lambda idx: af(((last,), idx[0], idx[1])), "float")
+    Bn_last = Arr((B_num.axes[1], B_num.axes[2]), lambda idx: bf(((last,), idx[0], idx[1])), "float")
+
+    def blk(cb):
+        j = sym.sub(sym.sub(N_, 2), cb)
+        Adi = Arr((A_den.axes[1], A_den.axes[2]), lambda idx: af(((j,), idx[0], idx[1])), "float")
+        Bni = Arr((B_num.axes[1], B_num.axes[2]), lambda idx: bf(((j,), idx[0], idx[1])), "float")
+        prod = MM.solve(Ad_last, Adi)
+        return prod, Bni, N.dot(Bn_last, prod)
+
+    def done(cb):
+        return And_(sym.lt(cb, last), True if upto is None else sym.lt(cb, upto))
+    zero = sym.toF(0.0)
+
+    def a_cell(idx):
+        (rb, re), (cb, ce) = idx[0], idx[1]
+        top = sym.Lazy.choose(done(cb), lambda: sym.neg(blk(cb)[0].cell(((re,), (ce,)))), lambda: zero)
+        low = sym.ite(And_(sym.eq(sym.sub(rb, 1), cb), sym.eq(re, ce)), sym.toF(1.0), zero)
+        return sym.Lazy.choose(sym.eq(rb, 0), lambda: top, lambda: low)
+
+    def c_cell(idx):
+        o, (cb, ce) = idx[0], idx[1]
+        def val():
+            prod, Bni, bp = blk(cb)
+            return sym.sub(Bni.cell((o, (ce,))), bp.cell((o, (ce,))))
+        return sym.Lazy.choose(done(cb), val, lambda: zero)
+    return (Arr(((N_, m), (N_, m)), a_cell, "float"), Arr((B_num.axes[1], (N_, m)), c_cell, "float"))
+
+
+@register
+class rmfd2ac(Contract):
+    qualname = "pyoma2.functions.plscf.rmfd2ac"
+    props = ("C05",)
+    generic_replay = False
+    bounded_driver = {"driver": "c05_exact", "inputs": {"trials": 15}}
+
+    def witness(self, o):
+        return dict(self.bounded_driver)
+
+    def setup(self, c):
+        N_ = S.integer("n_blocks", lo=2)
+        m = S.integer("Nch", lo=1)
+        l_ = S.integer("Nref", lo=1)
+        return {"A_den": S.array("A_den", "float", shape=(N_, m, m), finite=True), "B_num": S.array("B_num", "float", shape=(N_, l_, m), finite=True)}
+
+    def spec(me, c, A_den, B_num):
+        return companion(c, A_den, B_num)
+
+    def _loop(k, pre, it):
+        c = cur()
+        A, C = companion(c, pre["A_den"], pre["B_num"], upto=k)
+        return {"A": A, "C": C}
+    loops = {0: LoopSpec(_loop)}
+
+
+# ----------------------------------------------------------------------------------------------------------------------
+# plscf.pLSCF_poles: column c of every table holds the poles of the order-(c+1) model, NaN below (orders enumerated)
+# ----------------------------------------------------------------------------------------------------------------------
+
+class rmfd2ac_flow(Contract):
+    qualname = "pyoma2.functions.plscf.rmfd2ac"
+    name = "havoc-flow"
+    verify_body = False
+
+    def apply(self, interp, args, kwargs):
+        c = cur()
+        calls = c.memo.setdefault("ghost:rmfd2ac", [])
+        env = interp.bind(interp.repo.function(self.qualname), args, kwargs, None)
+        out = (sym.Opaque(f"A#{len(calls)}"), sym.Opaque(f"C#{len(calls)}"))
+        calls.append((env, out))
+        return out
+
+
+register(rmfd2ac_flow)
+
+
+class ac2mp_poly_flow(Contract):
+    qualname = "pyoma2.functions.plscf.ac2mp_poly"
+    name = "havoc-flow"
+    verify_body = False
+
+    def apply(self, interp, args, kwargs):
+        c = cur()
+        calls = c.memo.setdefault("ghost:ac2mp_poly", [])
+        env = interp.bind(interp.repo.function(self.qualname), args, kwargs, None)
+        g = c.memo["ghost:poly_sizes"]
+        o = len(calls)
+        L = sym.mul(o + 2, g["m"])
+        out = (S.array(f"fn{o}", "float", shape=(L,)), S.array(f"xi{o}", "float", shape=(L,)),
+               S.array(f"phi{o}", "complex", shape=(L, g["l"])), S.array(f"lam{o}", "complex", shape=(L,)))
+        for a in out:
+            a.fresh = True
+            a.meta["param"] = False
+        calls.append((env, out))
+        return out
+
+
+register(ac2mp_poly_flow)
+
+
+class _PolesPoly(Contract):
+    qualname = "pyoma2.functions.plscf.pLSCF_poles"
+    props = ("C05",)
+    generic_replay = False
+    callable_modular = False
+    bounded_driver = {"driver": "c05_exact", "inputs": {"trials": 15}}
+    use = {"pyoma2.functions.plscf.rmfd2ac": "havoc-flow", "pyoma2.functions.plscf.ac2mp_poly": "havoc-flow"}
+    NORD = 2
+    method = "per"
+
+    def witness(self, o):
+        return dict(self.bounded_driver)
+
+    def setup(self, c):
+        m = S.integer("Nch", lo=1)
+        l_ = S.integer("Nref", lo=1)
+        c.memo["ghost:poly_sizes"] = {"m": m, "l": l_}
+        Ad = [S.array(f"Ad{o}", "float", shape=(o + 2, m, m), finite=True) for o in range(self.NORD)]
+        Bn = [S.array(f"Bn{o}", "float", shape=(o + 2, l_, m), finite=True) for o in range(self.NORD)]
+        return {"Ad": Ad, "Bn": Bn, "dt": S.real("dt", pos=True), "methodSy": self.method, "nxseg": S.integer("nxseg", lo=3)}
+
+    def check(me, c, pre, post, outcome):
+        if outcome[0] != "return":
+            c.oblige("post", "no-exception", False, {"raised": str(outcome[1])})
+            return
+        rc = c.memo.get("ghost:rmfd2ac", [])
+        pc = c.memo.get("ghost:ac2mp_poly", [])
+        n_ord = me.NORD
+        c.oblige("post", "one companion form and one eigen-analysis per order", len(rc) == n_ord and len(pc) == n_ord)
+        if len(rc) != n_ord or len(pc) != n_ord:
+            return
+        for o in range(n_ord):
+            c.oblige("post", f"order {o + 1}: companion form of its own coefficient blocks", rc[o][0]["A_den"] is post["Ad"][o] and rc[o][0]["B_num"] is post["Bn"][o])
+            c.oblige("post", f"order {o + 1}: poles of its own companion form", pc[o][0]["A"] is rc[o][1][0] and pc[o][0]["C"] is rc[o][1][1])
+            c.oblige("post", f"order {o + 1}: dt, estimator and segment length forwarded",
+                     And_(sym.same(pc[o][0]["dt"], pre["dt"]), pc[o][0]["methodSy"] == pre["methodSy"], sym.eq(pc[o][0]["nxseg"], pre["nxseg"])))
+        cols = [x[1] for x in pc]
+        row_ax = cols[-1][0].axes[0]
+
+        def tab(which, nanv):
+            def f(idx):
+                r, cix = idx[0][0], idx[1][0]
+                v = None
+                for o in range(n_ord - 1, -1, -1):
+                    src = cols[o][which]
+                    val = sym.Lazy.choose(sym.lt(r, src.shape[0]), lambda src=src: src.cell(((r,),) + tuple(idx[2:])), lambda: nanv)
+                    v = val if v is None else sym.ite(sym.eq(cix, o), val, v)
+                return v
+            return f
+        want = (Arr((row_ax, (n_ord,)), tab(0, NAN), "float"), Arr((row_ax, (n_ord,)), tab(1, NAN), "float"),
+                Arr((row_ax, (n_ord,), cols[-1][2].axes[1]), tab(2, NANC), "complex"), Arr((row_ax, (n_ord,)), tab(3, NANC), "complex"))
+        from pyvc.interp import assert_same
+        assert_same("result", outcome[1], want, "post")
+
+
+@register
+class pLSCF_poles_2(_PolesPoly):
+    name = "orders 1..2"
+    NORD = 2
+
+
+@register
+class pLSCF_poles_3(_PolesPoly):
+    name = "orders 1..3"
+    NORD = 3
+
+
+# ----------------------------------------------------------------------------------------------------------------------
+# the numerical theorems of C01 / C05 (exact recovery on noise-free data / on an exactly rational spectrum) are statements
+# about SVD / QR / least squares in floating point: outside any contract over the reals that the verifier could discharge.
+# Bounded stand-ins on the real functions (labelled bounded, never counted as proved).
+# ----------------------------------------------------------------------------------------------------------------------
+
+class _Exact(Contract):
+    bounded_only = True
+    callable_modular = False
+    generic_replay = False
+
+
+@register
+class ssi_exact(_Exact):
+    qualname = "pyoma2.functions.ssi.SSI_fast"
+    props = ("C01",)
+    name = "exact recovery"
+    bounded_reason = ("unsupported: 'recovers the system exactly' is a theorem about SVD / QR / pseudo-inverse (shift invariance of an exact rank-2m "
+                      "observability matrix) and floating-point conditioning; the kernels are uninterpreted in the verifier")
+    bounded_bound = ("1-4 modes, max(2,m)-6 channels, real and complex shapes, damping 0.4-5 %, fs in {50, 100, 256}, 600/900 samples, br = 2m+2..2m+5, "
+                     "all channels or a reference subset; realisation alone (SSI_fast and SSI) on an exact rank-2m Hankel matrix, then SSIcov(cov_mm) and SSIdat "
+                     "through SingleSetup.run_by_name and mpe at order 2m")
+    bounded_driver = {"driver": "c01_exact", "inputs": {"trials": 10, "trials_thorough": 120}}
+
+
+@register
+class plscf_exact(_Exact):
+    qualname = "pyoma2.functions.plscf.pLSCF"
+    props = ("C05",)
+    name = "exact recovery"
+    bounded_reason = ("unsupported: 'reproduces the coefficients of an exactly rational spectrum' is a theorem about the reduced normal equations (least squares "
+                      "with exact data) and floating-point conditioning; np.kron / solve over growing block matrices are outside the modelled subset")
+    bounded_bound = ("orders 1-4, 2-4 channels, 1-Nch reference rows, 4(n+1)..4(n+1)+29 lines, dt in {0.01, 0.05, 0.2}, both basis-function signs, ordmax in {n, n+1}; "
+                     "coefficients compared to 1e-6, reported poles against the roots of det A(x) from an independent companion matrix")
+    bounded_driver = {"driver": "c05_exact", "inputs": {"trials": 25, "trials_thorough": 300}}
